@@ -149,13 +149,36 @@ func (n *vxPNode) isContext() bool { return n.positioned || n.translucent || n.f
 // CSS 2.1 Appendix E on the model tree
 type vxPainter struct{ out []string }
 
+// real: creates a stacking context of its own (z-index on a positioned box, opacity); the
+// other "contexts" (positioned with z-index auto, floats) are only painted atomically: the
+// positioned and real contexts found below them belong to the enclosing real context.
+func (n *vxPNode) real() bool { return (n.positioned && n.hasZ) || n.translucent }
+
 func (p *vxPainter) collect(n *vxPNode, plain *[]*vxPNode, ctxs *[]*vxPNode) {
 	for _, k := range n.kids {
 		if k.isContext() {
 			*ctxs = append(*ctxs, k)
+			if !k.real() {
+				p.bubble(k, ctxs)
+			}
 		} else {
 			*plain = append(*plain, k)
 			p.collect(k, plain, ctxs)
+		}
+	}
+}
+
+func (p *vxPainter) bubble(k *vxPNode, ctxs *[]*vxPNode) {
+	for _, c := range k.kids {
+		switch {
+		case c.positioned || c.translucent:
+			*ctxs = append(*ctxs, c)
+			if !c.real() {
+				p.bubble(c, ctxs)
+			}
+		case c.floated: // stays inside k
+		default:
+			p.bubble(c, ctxs)
 		}
 	}
 }
@@ -169,6 +192,16 @@ func (p *vxPainter) paint(n *vxPNode) {
 	}
 	var plain, ctxs []*vxPNode
 	p.collect(n, &plain, &ctxs)
+	if n.isContext() && !n.real() {
+		// only its floats are painted inside it
+		var own []*vxPNode
+		for _, c := range ctxs {
+			if c.floated && !c.positioned && !c.translucent {
+				own = append(own, c)
+			}
+		}
+		ctxs = own
+	}
 	layer := func(c *vxPNode) int { // -1 negative, 0 zero/auto, 1 positive, 2 float
 		switch {
 		case c.positioned && c.hasZ && c.z < 0:
@@ -304,4 +337,57 @@ func join(l []string) string {
 		s += x + " "
 	}
 	return s
+}
+
+// a positioned box with z-index: auto holding several positioned descendants: they are painted
+// after it, in tree order ("treat the element as if it created a new stacking context, but
+// any positioned descendants ... are part of the parent stacking context").
+func VxH_C16_nested_order() {
+	html := &vxPNode{tag: "html"}
+	body := &vxPNode{tag: "body"}
+	section, article, nav, aside := &vxPNode{tag: "section"}, &vxPNode{tag: "article"}, &vxPNode{tag: "nav"}, &vxPNode{tag: "aside"}
+	html.kids = []*vxPNode{body}
+	body.kids = []*vxPNode{section}
+	section.kids = []*vxPNode{article, nav, aside}
+	names := []string{"html", "body", "section", "article", "nav", "aside"}
+	itoa := func(i int) string { return string(rune('0' + i)) }
+	css := "html{background-color: rgb(0,1,0)} "
+	for i, nm := range names[1:] {
+		e := itoa(i + 1)
+		css += nm + "{display:block;height:10px;width:50px;background-color: rgb(" + e + ",1,0);border: 1px solid rgb(" + e + ",2,0);outline: 1px solid rgb(" + e + ",3,0)} "
+	}
+	if vx.Choose("wrapper-positioned", 2) == 1 {
+		section.positioned = true
+		css += "section{position:relative} "
+	}
+	for _, n := range []*vxPNode{article, nav, aside} {
+		switch vx.Choose("child-"+n.tag, 3) {
+		case 1:
+			n.positioned = true
+			css += n.tag + "{position:absolute;top:0;left:0} "
+		case 2:
+			n.positioned, n.hasZ, n.z = true, true, 0
+			css += n.tag + "{position:absolute;top:0;left:0;z-index:0} "
+		}
+	}
+	src := "<html><head><style>head{display:none} " + css + "</style></head><body><section><article></article><nav></nav><aside></aside></section></body></html>"
+	doc, err := tree.NewHTML(utils.InputString(src), "", nil, "")
+	if err != nil {
+		panic(err)
+	}
+	pages := layout.Layout(doc, nil, false, nil)
+	vx.Reach("laid-out")
+	canvas := vxNewCanvas()
+	ctx := drawContext{
+		dst:               canvas,
+		hyphenCache:       make(map[text.HyphenDictKey]hyphen.Hyphener),
+		strutLayoutsCache: make(map[text.StrutLayoutKey][2]pr.Float),
+	}
+	ctx.drawPage(pages[0])
+	vx.Reach("drawn")
+	p := &vxPainter{out: []string{"bg:html"}}
+	p.paint(html)
+	vx.ObserveString("got", join(*canvas.log))
+	vx.ObserveString("want", join(p.out))
+	vx.Assert("paint-order", vxStrsEq(*canvas.log, p.out))
 }
